@@ -114,6 +114,12 @@ type Client struct {
 	// forcefully killed.
 	processKilled bool
 
+	// killLock serialises Kill. A Kill that overlaps an earlier one waits for
+	// it instead of finding the protocol client already closed, taking that
+	// for a failed graceful shutdown and force-killing a plugin that is still
+	// inside its grace period.
+	killLock sync.Mutex
+
 	unixSocketCfg UnixSocketConfig
 
 	grpcMuxerOnce sync.Once
@@ -505,6 +511,9 @@ func (c *Client) killed() bool {
 //
 // This method can safely be called multiple times.
 func (c *Client) Kill() {
+	c.killLock.Lock()
+	defer c.killLock.Unlock()
+
 	// Grab a lock to read some private fields.
 	c.l.Lock()
 	runner := c.runner
